@@ -339,14 +339,16 @@ class Execution:
         for k, a in items:
             model.add_node(k, a or {})
 
-    def op_add_edge(self, op, slot, u, v):
+    def op_add_edge(self, op, slot, u, v, attrs=None):
         real, model = self.get(slot)
         if real is None or u == v:
             return False
         if u not in model.nodes or v not in model.nodes:
             self.stats.probes['edge_creates_node'] += 1
-        self.expect_ok(self.call(real.add_edge, u, v), op)
-        model.add_edge(u, v)
+        if attrs and frozenset((u, v)) in model.edges:
+            self.stats.probes['edge_attrs_updated'] += 1
+        self.expect_ok(self.call(real.add_edge, u, v, **(attrs or {})), op)
+        model.add_edge(u, v, attrs)
 
     def op_add_edges_from(self, op, slot, pairs):
         real, model = self.get(slot)
@@ -1171,8 +1173,13 @@ class Generator:
             u = rng.choice(keys)
             v = rng.choice(keys) if rng.random() < 0.85 else self.fresh_key(rng, m)
             if u != v:
-                self.emit(['add_edge', slot, u, v])
-                m.add_edge(u, v)
+                attrs = rng.choice([None, None, {'distance': rng.choice([0.3, 0.47])}, {'order': rng.choice([1, 2])}])
+                if attrs is None and m.edges and rng.random() < 0.3:
+                    # update the attributes of an existing bond (exposes attribute dicts shared between copies)
+                    u, v = sorted(rng.choice(sorted(m.edges, key=lambda e: sorted(map(repr, e)))), key=repr)
+                    attrs = {'order': rng.choice([1, 2, 3])}
+                self.emit(['add_edge', slot, u, v] + ([attrs] if attrs else []))
+                m.add_edge(u, v, attrs)
         elif r < 0.27 and len(keys) > 1:
             pairs = [rng.sample(keys, 2) for _ in range(rng.randint(1, 3))]
             if rng.random() < 0.2:
@@ -1415,7 +1422,7 @@ class C12Check(_MolCheck):
             'distinct = scenario digest; non-trivial = history with at least one applied merge/copy/subgraph/removal')
     probes_expected = ['merge_after_key_churn', 'removed_highest_key', 'remove_nodes_from_iterator', 'rejected_op',
                        'merge_rejected', 'copy_or_subgraph', 'block_merged', 'merge_chains', 'merge_all_molecules', 'inter_molecule_edges',
-                       'interaction_replaced', 'edge_creates_node', 'add_existing_node']
+                       'interaction_replaced', 'edge_creates_node', 'add_existing_node', 'edge_attrs_updated']
 
     def budgets(self, tier):
         if tier == 'thorough':
